@@ -6,6 +6,7 @@ import (
 	"math/big"
 	"sort"
 
+	"github.com/btcsuite/btcd/txscript"
 	"github.com/btcsuite/btcd/wire"
 	sdk "github.com/cosmos/cosmos-sdk/types"
 	"github.com/ethereum/go-ethereum/common"
@@ -306,6 +307,19 @@ func (w *World) stepNewDeposit(a newDepositArgs, r *Rand) string {
 	if err := n.query("/goat.bitcoin.v1.Query/DepositAddress", req, resp); err != nil {
 		w.probe("deposit-address-refused")
 		w.checkAddressRefusal(n, version, err)
+		// version 1 does not exist for Schnorr keys: the user pays what such an address would look like
+		// anyway (the key's plain taproot output plus the magic-prefixed data output) and the relayer
+		// later claims it as a version-1 deposit; deposit checking must refuse it like the query did
+		if pk, _ := w.currentBtcKey(); version == 1 && pk != nil && pk.GetSchnorr() != nil && !w.Cfg.FaultFree && a.Value > 0 {
+			data := append([]byte{txscript.OP_RETURN, 24}, append([]byte(w.Cfg.Magic), evm.Bytes()...)...)
+			outs := []*wire.TxOut{{Value: int64(a.Value), PkScript: w.systemScript(pk)}, {Value: 0, PkScript: data}}
+			d := &DepositFact{ID: len(w.Btc.Deposits), Vout: 0, EVM: evm, Value: a.Value, Version: 1, Key: pk, HandedBy: n.ID}
+			d.Tx = w.Btc.spend(outs, "deposit")
+			w.Btc.Pending = append(w.Btc.Pending, d.Tx)
+			w.Btc.Deposits = append(w.Btc.Deposits, d)
+			w.probe("v1-deposit-paid-to-schnorr-key")
+			return "address-refused:paid-anyway"
+		}
 		return "address-refused"
 	}
 	if n.Height < w.Cmt.Height {
@@ -405,7 +419,7 @@ func (w *World) stepProveDeposits(a proveArgs, r *Rand) string {
 }
 
 var badDepositVariants = []string{"wrong-position", "alias-position", "truncated-path", "extended-path", "permuted-path", "inner-node-as-tx", "other-block-proof",
-	"unvoted-header", "fake-header", "dup-in-batch", "dup-across", "wrong-evm", "unregistered-key", "other-registered-key", "wrong-version", "v1-other-magic", "vout-oob", "vout-other",
+	"unvoted-header", "fake-header", "dup-in-batch", "dup-alias-in-batch", "alias-last-position", "dup-across", "wrong-evm", "unregistered-key", "other-registered-key", "wrong-version", "v1-other-magic", "vout-oob", "vout-other",
 	"oversize", "undersize", "dup-header-heights", "bitflip-tx", "nil-key", "short-evm", "no-headers", "many-headers", "zero-position-claim"}
 
 // mutateDeposits applies one adversarial variant to an otherwise well-formed batch.
@@ -478,6 +492,26 @@ func (w *World) mutateDeposits(msg *bitcointypes.MsgNewDeposits, facts []*Deposi
 	case "dup-in-batch":
 		c := *d0
 		msg.Deposits = append(msg.Deposits, &c)
+	case "alias-last-position":
+		// a single claim under the other position of a self-paired last node (the transaction is
+		// really in the block; whatever the chain decides, it must credit the output at most once)
+		if al := blk.aliasIndex(f0.Index); al >= 0 {
+			d0.TxIndex = uint32(al)
+		}
+	case "dup-alias-in-batch":
+		// the same output twice in one batch, the second time under another position at which the
+		// same path verifies (last node of an odd-sized level); falls back to a plain repeat.
+		// Either order: alias first or genuine first.
+		c := *d0
+		if al := blk.aliasIndex(f0.Index); al >= 0 {
+			c.TxIndex = uint32(al)
+			w.probe("deposit-repeated-under-alias-position")
+		}
+		if r.Chance(0.5) {
+			msg.Deposits = append(msg.Deposits, &c)
+		} else {
+			msg.Deposits = append([]*bitcointypes.Deposit{&c}, msg.Deposits...)
+		}
 	case "dup-across":
 		// resubmission of something already submitted: nothing to change
 	case "wrong-evm":
@@ -1072,6 +1106,23 @@ func (w *World) genDepositStep(r *Rand, sub uint64, bad bool) Step {
 		variant := pick(r, badDepositVariants)
 		if variant == "unvoted-header" && len(unvoted) > 0 {
 			pool = unvoted
+		}
+		if variant == "dup-in-batch" || variant == "dup-alias-in-batch" || variant == "alias-last-position" {
+			// a repeat only tests the once-only rule when the output has not been credited yet;
+			// the alias variants need a transaction that is the self-paired last node of a level
+			var fresh, aliased []int
+			for _, id := range provable {
+				fresh = append(fresh, id)
+				d := b.Deposits[id]
+				if blk := b.Blocks[d.Height]; blk != nil && blk.aliasIndex(d.Index) >= 0 {
+					aliased = append(aliased, id)
+				}
+			}
+			if len(aliased) > 0 && variant != "dup-in-batch" {
+				pool = aliased
+			} else if len(fresh) > 0 {
+				pool = fresh
+			}
 		}
 		if len(pool) > 0 {
 			ids := []int{pick(r, pool)}
